@@ -391,6 +391,23 @@ impl Rendered {
     pub fn line_col(&self, off: usize) -> (usize, usize) {
         line_col(&self.text, off)
     }
+    /// line and column (both 1-based) as the language server protocol counts: columns in UTF-16 code units
+    pub fn line_col16(&self, off: usize) -> (usize, usize) {
+        let mut line = 1;
+        let mut col = 1;
+        for (i, c) in self.text.char_indices() {
+            if i >= off {
+                break;
+            }
+            if c == '\n' {
+                line += 1;
+                col = 1;
+            } else {
+                col += c.len_utf16();
+            }
+        }
+        (line, col)
+    }
     pub fn stmt_span(&self, n: usize) -> Option<(usize, usize)> {
         self.marks
             .iter()
